@@ -1,7 +1,8 @@
 (* Executable model of infretis/setup.py: check_config and the defaults filled in by
    setup_config ("normalise"), plus the property's own list of what a valid
    configuration is ([valid], declarative; [validb], its boolean form used as an oracle by
-   the harness).  No proofs here.
+   the harness), and the route by which a configuration reaches setup_config (fresh input
+   file or restart file: [setup_from]).  No proofs here.
 
    The model follows the code WITH /verif/proposed_fixes/C18_check_config.diff applied
    (lead L8; see py/checks/c18.py for what the unpatched code does differently):
@@ -249,6 +250,36 @@ Definition normalise (c : config) : config :=
 (* setup_config = fill in the defaults, then check *)
 Definition setup_config (c : config) : config * result :=
   let c' := normalise c in (c', check_config c').
+
+(* ------------------------------------------------------------------ the route into setup_config *)
+
+(* setup_config reads either an input file without a [current] table (a fresh start) or one
+   that has it: the restart.toml the program wrote - possibly edited by the user since (more
+   steps, more workers, another cap, ...) - or an infretis.toml that is replaced by an "equal"
+   restart.toml.  What the  if "current" in config:  branch looks at, before the defaults and
+   the checks (which are the same statements for both branches): *)
+Record current := mkCur {
+  cstep : Z;                  (* current.cstep *)
+  paths_present : bool        (* every path in current.active has load_dir/<n>/traj.txt *)
+}.
+
+(* None = setup_config returns None: nothing is set up, nothing is sampled *)
+Definition setup_from (steps : Z) (cur : option current) (c : config)
+  : option (config * result) :=
+  match cur with
+  | Some k =>                                    (* if "current" in config: *)
+    if (cstep k =? steps)%Z then None            (*   cstep == steps: return None *)
+    else if negb (paths_present k) then None     (*   an active path is missing: return None *)
+    else Some (setup_config c)                   (*   restarted_from, trim_data_file; then the
+                                                      defaults and check_config *)
+  | None => Some (setup_config c)                (* else: current := step 0, write_header; then
+                                                      the defaults and check_config *)
+  end.
+
+(* the run goes on to setup_internal / the scheduler only with a configuration that
+   setup_config returned, i.e. one that check_config let through *)
+Definition sampling_starts (o : option (config * result)) : Prop :=
+  exists c', o = Some (c', Ok).
 
 (* ------------------------------------------------------------------ the property's list *)
 
